@@ -298,7 +298,7 @@ fn judge_date(rec: &mut Rec, day: i64, kind: u8, c: u32, d: Duration) {
 
 pub fn run(ctx: &Ctx) -> PropResult {
     let mut wls = vec![];
-    wls.push(Workload::cases("datetime_methods", ctx.n(400_000, 20_000_000), |rec, idx, rng| {
+    wls.push(Workload::cases("datetime_methods", ctx.count(400_000, 20_000_000), |rec, idx, rng| {
         let m = (idx % 14) as usize;
         let (_, unit, dir) = METHODS[m];
         let (i, off) = if rng.chance(1, 8) {
@@ -316,14 +316,14 @@ pub fn run(ctx: &Ctx) -> PropResult {
         let (c, stratum) = gen_count(rng, i, unit, dir);
         judge_method(rec, i, off, m, c, stratum);
     }));
-    wls.push(Workload::cases("datetime_duration_ops", ctx.n(120_000, 6_000_000), |rec, idx, rng| {
+    wls.push(Workload::cases("datetime_duration_ops", ctx.count(120_000, 6_000_000), |rec, idx, rng| {
         let (i, _) = gen_instant(rng, 2);
         let off = gen_offset(rng);
         let dir = if idx % 2 == 0 { 1 } else { -1 };
         let (d, stratum) = gen_duration(rng, i, dir);
         judge_duration(rec, i, off, dir, d, stratum, idx % 8 >= 6);
     }));
-    wls.push(Workload::cases("datetime_time_ops", ctx.n(60_000, 2_000_000), |rec, idx, rng| {
+    wls.push(Workload::cases("datetime_time_ops", ctx.count(60_000, 2_000_000), |rec, idx, rng| {
         let dir = if idx % 2 == 0 { 1 } else { -1 };
         let (i, off) = match rng.below(3) {
             0 => {
@@ -338,7 +338,7 @@ pub fn run(ctx: &Ctx) -> PropResult {
         };
         judge_time_op(rec, i, off, dir, tn, gen_offset(rng), idx % 8 >= 6);
     }));
-    wls.push(Workload::cases("date_ops", ctx.n(120_000, 4_000_000), |rec, idx, rng| {
+    wls.push(Workload::cases("date_ops", ctx.count(120_000, 4_000_000), |rec, idx, rng| {
         let day = match rng.below(4) {
             0 => rng.range_i64(-800, 800),
             1 => rng.range_i64(cal::MIN_DAY, cal::MIN_DAY + 1000),
@@ -351,7 +351,7 @@ pub fn run(ctx: &Ctx) -> PropResult {
         let (d, _) = gen_duration(rng, day as i128 * D, dir);
         judge_date(rec, day, kind, c, d);
     }));
-    wls.push(Workload::cases("api_walks", ctx.n(30_000, 1_500_000), |rec, _, rng| super::walk::walk(rec, rng, "C04", super::walk::Family::Arithmetic)));
+    wls.push(Workload::cases("api_walks", ctx.count(30_000, 1_500_000), |rec, _, rng| super::walk::walk(rec, rng, "C04", super::walk::Family::Arithmetic)));
     let out = run_workloads(ctx, wls);
     let mut meta = PropMeta::default();
     meta.rule = "instant (8 strata, all eras, two-day margin) x offset (whole ±86399 s) x method (14 add_/sub_ methods round-robin) x count from {0..100, u32::MAX−0..2, 2^31±1, the counts at which count·unit crosses 2^63/2^64 ns ±2, the model-computed last representable count −1..+2, <2^20, uniform u32}; Durations {sub-day, multi-day, 2^32 days+ε, u64::MAX s, at the representability edge ±{1 ns,1 s,1 d}, wide}; DateTime ± Time; Date add/sub_days and ± Duration (whole days). Oracle: i128 instant arithmetic — representable ⇒ exact instant, same offset, day-nanoseconds < 24 h; not representable ⇒ the call must panic (any panic). Non-trivial = count > 100, BC start, era crossing or unrepresentable target (methods); every operator case. Distinct by input hash.".into();
